@@ -7,4 +7,5 @@ INVARIANT NoFailure
 INVARIANT SerialResults
 INVARIANT StoreUnchanged
 INVARIANT NoDeadlock
+INVARIANT WalAtWork
 CHECK_DEADLOCK FALSE
